@@ -102,3 +102,14 @@ func c13RetireStaleControls() {
 	}
 	controls = kept
 }
+
+func init() {
+	AddControl(Control{ID: "c13-cast-boxed-int64", Prop: "C13", Rule: "C13.cast", File: "internal/gojqx/types.go",
+		Old:       "\t\t\tif math.MinInt <= vi && vi <= math.MaxInt {\n\t\t\t\treturn any(int(vi)).(T), true",
+		New:       "\t\t\tif math.MinInt <= vi && vi <= math.MaxInt {\n\t\t\t\treturn any(vi).(T), true",
+		ExpectKey: "CastFn[int]|live:int64->int"})
+	AddControl(Control{ID: "c13-cast-unsupported-kind", Prop: "C13", Rule: "C13.cast", File: "format/text/url.go",
+		Old:       "\tinterp.RegisterFunc0(\"to_urlpath\", func(_ *interp.Interp, c string) any {\n\t\treturn url.PathEscape(c)",
+		New:       "\tinterp.RegisterFunc0(\"to_urlpath\", func(_ *interp.Interp, c []byte) any {\n\t\treturn url.PathEscape(string(c))",
+		ExpectKey: "CastFn[[]byte]|kind"})
+}
